@@ -122,7 +122,7 @@ thread_local! {
     static DISPATCH: RefCell<Option<DispatchFn>> = const { RefCell::new(None) };
 }
 
-pub type DispatchFn = fn(&Pubkey, &[AccountInfo<'static>], &[u8]) -> Option<ProgramResult>;
+pub type DispatchFn = fn(&Pubkey, &'static [AccountInfo<'static>], &[u8]) -> Option<ProgramResult>;
 
 /// Install the program table for this thread (system program is built in).
 pub fn set_dispatch(f: DispatchFn) {
@@ -145,6 +145,8 @@ fn dispatch(program_id: &Pubkey, accounts: &[AccountInfo<'static>], data: &[u8])
         system_process(accounts, data)
     } else {
         let f = DISPATCH.with(|d| *d.borrow());
+        // SAFETY: the account infos point into per-instruction images that outlive the call.
+        let accounts: &'static [AccountInfo<'static>] = unsafe { std::mem::transmute(accounts) };
         match f.and_then(|f| f(program_id, accounts, data)) {
             Some(r) => r,
             None => Err(ProgramError::IncorrectProgramId),
@@ -403,6 +405,8 @@ fn read_back(img: &Image) -> Acc {
 pub struct TxOpts {
     /// Fail the n-th CPI (1-based) of the transaction.
     pub fail_cpi_at: Option<u64>,
+    /// Fee payer (always a writable signer). Default: the first signer of the message.
+    pub payer: Option<Pubkey>,
 }
 
 impl World {
@@ -477,6 +481,8 @@ impl World {
     fn process_ix(
         &mut self,
         ix: &Instruction,
+        msg_signers: &[Pubkey],
+        msg_writable: &[Pubkey],
         undo: &mut Vec<(Pubkey, Option<Acc>)>,
         out: &mut TxOutcome,
     ) -> Result<(), ()> {
@@ -499,8 +505,10 @@ impl World {
         let flags: Vec<(bool, bool)> = images
             .iter()
             .map(|img| {
-                let s = ix.accounts.iter().any(|p| p.pubkey == img.key && p.is_signer);
-                let w = ix.accounts.iter().any(|p| p.pubkey == img.key && p.is_writable);
+                // Signer and writable privileges are message-wide on Solana (the union over all
+                // instructions of the transaction; the fee payer is always a writable signer).
+                let s = msg_signers.contains(&img.key);
+                let w = msg_writable.contains(&img.key);
                 (s, w)
             })
             .collect();
@@ -540,7 +548,7 @@ impl World {
             sum_after += a.lamports as u128;
             let (_, writable) = flags[i];
             if !writable && b != a {
-                out.runtime_rule = Some("readonly_modified".into());
+                out.runtime_rule = Some(format!("readonly_modified:{}:lamports {}->{} len {}->{}", images[i].key, b.lamports, a.lamports, b.data.len(), a.data.len()));
                 return Err(());
             }
             if b.executable && b != a {
@@ -589,8 +597,30 @@ impl World {
         let mut out = TxOutcome::default();
         let mut undo: Vec<(Pubkey, Option<Acc>)> = Vec::new();
         let mut ok = true;
+        let mut msg_signers: Vec<Pubkey> = Vec::new();
+        let mut msg_writable: Vec<Pubkey> = Vec::new();
+        for ix in ixs {
+            for m in &ix.accounts {
+                if m.is_signer && !msg_signers.contains(&m.pubkey) {
+                    msg_signers.push(m.pubkey);
+                }
+                if m.is_writable && !msg_writable.contains(&m.pubkey) {
+                    msg_writable.push(m.pubkey);
+                }
+            }
+        }
+        // Fee payer: explicit, or the first signer of the message.
+        let payer = opts.payer.or_else(|| msg_signers.first().copied());
+        if let Some(p) = payer {
+            if !msg_writable.contains(&p) {
+                msg_writable.push(p);
+            }
+            if !msg_signers.contains(&p) {
+                msg_signers.push(p);
+            }
+        }
         for (i, ix) in ixs.iter().enumerate() {
-            if self.process_ix(ix, &mut undo, &mut out).is_err() {
+            if self.process_ix(ix, &msg_signers, &msg_writable, &mut undo, &mut out).is_err() {
                 out.failed_ix = Some(i);
                 ok = false;
                 break;
